@@ -1,11 +1,18 @@
 import ShellOp.Util
 import ShellOp.Model.HookRun
+import ShellOp.Model.HookOutText
 /-! Line-protocol suite for C12 (hook execution contract). Core-only.
 
-* `keep <0|1>` — the keep-tmp debug variable.
-* `exec <eid> allow=<0|1> exit=<n> metrics=<class> adm=<class> conv=<class> patch=<class>` — one
-  execution with scripted outputs; the model runs `Run` + `handleRunHook` on its temp directory and
-  answers with status and effects.
+* `keepvar x<hex>` — the value of the keep-tmp debug setting (`--debug-keep-tmp-files`) the hooks are
+  loaded and run with.
+* `exec <eid> allow=<0|1> exit=<n> metrics=<class> adm=<class> conv=<class> patch=<class>
+  mt=x<hex> at=x<hex> ct=x<hex> pt=x<hex> pf=<json|yaml>` — one execution with scripted outputs: the TEXT the
+  hook writes into each output file (hex) and the generator's class. Whether a file is well-formed is
+  decided here from its text (`Text.streamOk` / `Text.wholeOk`); the class only says what a
+  well-formed file means (`badbatch`: rejected by `ValidateOperations`; patch `applyerr` /
+  `invaliddoc` / `wrongtype`: the schema's and the cluster's business; `deleted`: the hook removed the
+  file; YAML patches: the class alone). The model runs `Run` + `handleRunHook` on its temp directory
+  and answers with status and effects.
 * `prepfail <eid> created=<k> [allow=<0|1>]` — the (k+1)-th temp file cannot be created (the execution counts for
   the names/leftover oracles as one that drew no names).
 * `tmpdir` — number of files in the temp directory now.
@@ -24,33 +31,42 @@ structure S where
   keep : Bool := false
   execs : List ExecIn := []
 
-/-- File class → what the parser returns (the classes the harness writes). -/
-def metricsOf : String → Option Metrics
-  | "empty" => some .none
-  | "valid" => some (.ops true)
-  | "badbatch" => some (.ops false)     -- decodes, rejected by ValidateOperations
-  | "truncated" => some .err
-  | "wrongtype" => some .err
-  | "deleted" => some .err
+def hexDigit (c : Char) : Option Nat :=
+  if '0' ≤ c ∧ c ≤ '9' then some (c.toNat - '0'.toNat)
+  else if 'a' ≤ c ∧ c ≤ 'f' then some (c.toNat - 'a'.toNat + 10)
+  else none
+
+def unhexList : List Char → Option (List Char)
+  | [] => some []
+  | a :: b :: rest => do
+    let x ← hexDigit a
+    let y ← hexDigit b
+    let r ← unhexList rest
+    some (Char.ofNat (16 * x + y) :: r)
   | _ => none
 
-def respOf : String → Option Resp
-  | "empty" => some .none
-  | "valid" => some .some
-  | "truncated" => some .err
-  | "wrongtype" => some .err
-  | "deleted" => some .err
+/-- `x<hex>` → the bytes as characters. -/
+def unhex (s : String) : Option (List Char) :=
+  match s.toList with
+  | 'x' :: cs => unhexList cs
   | _ => none
 
-def patchOf : String → Option Patch
-  | "empty" => some .empty
-  | "valid" => some (.ops true)
-  | "applyerr" => some (.ops false)     -- parses, one operation fails when applied
-  | "invaliddoc" => some .parseErr      -- decodes, rejected by the schema
-  | "truncated" => some .parseErr
-  | "wrongtype" => some .parseErr
-  | "deleted" => some .unreadable
-  | _ => none
+/-- Class → the two facts the text does not decide (`deleted`: the hook removed the file;
+`badbatch`: `ValidateOperations` rejects the operations). -/
+def metricsOf (cls : String) (text : List Char) : Metrics :=
+  Text.metricsOfText (cls == "deleted") (cls != "badbatch") text
+
+def respOf (ok : Text.V → Bool) (cls : String) (text : List Char) : Resp :=
+  Text.respOfText ok (cls == "deleted") text
+
+def patchOf (cls fmt : String) (text : List Char) : Patch :=
+  let byClass : Patch :=
+    if cls == "valid" then .ops true else if cls == "applyerr" then .ops false else .parseErr
+  -- `pf=json`: the generator's texts that are not JSON are not YAML either (it filters them)
+  if fmt == "json" then Text.patchOfText (cls == "deleted") byClass .parseErr text
+  else if cls == "deleted" then .unreadable
+  else if text.isEmpty then .empty
+  else byClass
 
 def namesFor (eid : Nat) : Names :=
   ⟨5 * eid + 1, 5 * eid + 2, 5 * eid + 3, 5 * eid + 4, 5 * eid + 5⟩
@@ -65,18 +81,25 @@ def showOutcome (fail : Bool) (p m a c : Bool) : String :=
 def parseExec (rest : List String) : Option (Bool × Outputs) := do
   let allow ← (kv? "allow" rest).bind bool?
   let exit ← (kv? "exit" rest).bind String.toNat?
-  let m ← (kv? "metrics" rest).bind metricsOf
-  let a ← (kv? "adm" rest).bind respOf
-  let c ← (kv? "conv" rest).bind respOf
-  let p ← (kv? "patch" rest).bind patchOf
-  some (allow, ⟨exit, m, a, c, p⟩)
+  let mc ← kv? "metrics" rest
+  let ac ← kv? "adm" rest
+  let cc ← kv? "conv" rest
+  let pc ← kv? "patch" rest
+  let mt ← (kv? "mt" rest).bind unhex
+  let at' ← (kv? "at" rest).bind unhex
+  let ct ← (kv? "ct" rest).bind unhex
+  let pt ← (kv? "pt" rest).bind unhex
+  let pf ← kv? "pf" rest
+  if pf != "json" && pf != "yaml" then none
+  some (allow, ⟨exit, metricsOf mc mt, respOf Text.admissionOk ac at', respOf Text.conversionOk cc ct,
+    patchOf pc pf pt⟩)
 
 def step (st : S) (toks : List String) : S × String :=
   match toks with
   | "note" :: _ => (st, "ok")
-  | ["keep", k] =>
-    match bool? k with
-    | some k => ({ st with keep := k }, "ok")
+  | ["keepvar", v] =>
+    match unhex v with
+    | some v => ({ st with keep := keepSetting (String.ofList v) }, "ok")
     | none => (st, "bad-op")
   | "exec" :: eid :: rest =>
     match eid.toNat?, parseExec rest with
@@ -130,11 +153,16 @@ def step (st : S) (toks : List String) : S × String :=
     | _, _ => (st, "bad-op")
   | "oracle" :: "tmpdir" :: rest =>
     -- all temporary files of the executions are gone (unless the debug variable keeps them)
-    match (kv? "leftover" rest).bind String.toNat? with
-    | some n =>
-      let want := if st.keep then 5 * st.execs.length else 0
+    -- `setting=x<hex>`: the value of --debug-keep-tmp-files the operator runs with (default "no");
+    -- documented: "set to yes to disable cleanup" — every other value removes the files
+    let setting? : Option String := match kv? "setting" rest with
+      | none => some "no"
+      | some h => (unhex h).map String.ofList
+    match (kv? "leftover" rest).bind String.toNat?, setting? with
+    | some n, some setting =>
+      let want := if setting == "yes" then 5 * st.execs.length else 0
       if n == want then (st, "true") else (st, s!"false want leftover={want}")
-    | none => (st, "bad-op")
+    | _, _ => (st, "bad-op")
   | "oracle" :: "unique" :: rest =>
     -- file names are unique per execution: the interned path names handed to the hooks (five per
     -- execution, in execution order) are pairwise different
